@@ -85,12 +85,33 @@ func ruleC10a(c *Ctx) {
 		// and the deciding If dominates the selection
 		selSite := selectionSiteIn(p, d)
 		covers := false
-		if guard != nil && selSite != nil && len(df.Block().Preds) == 1 {
-			ifb := df.Block().Preds[0]
-			if iff, ok := ifb.Instrs[len(ifb.Instrs)-1].(*ssa.If); ok {
-				if _, ok := fieldLoadIs(strip(condRoot(iff.Cond)), "Container", "doNotRecover"); ok {
-					// the enabled edge leads straight into the defer's block, and every path to the selection passes the If
-					covers = ifb.Dominates(selSite.Block()) && reachableBlocks([]*ssa.BasicBlock{df.Block()}, nil)[selSite.Block()]
+		if guard != nil && selSite != nil {
+			// the If that tests the switch dominates the selection, and from its "recovery enabled" edge the selection
+			// is not reached without executing the defer statement (other statements may sit between the test and the defer)
+			for _, ifb := range fn.Blocks {
+				iff, ok := ifb.Instrs[len(ifb.Instrs)-1].(*ssa.If)
+				if !ok {
+					continue
+				}
+				if _, ok := fieldLoadIs(strip(condRoot(iff.Cond)), "Container", "doNotRecover"); !ok {
+					continue
+				}
+				if !ifb.Dominates(df.Block()) || !ifb.Dominates(selSite.Block()) {
+					continue
+				}
+				// the enabled edge: the successor from which the defer is reachable under the guard's polarity
+				for k, s := range ifb.Succs {
+					enabled := (k == 0) == guard.Pol
+					if negations(iff.Cond)%2 == 1 {
+						enabled = !enabled
+					}
+					if !enabled || len(s.Instrs) == 0 {
+						continue
+					}
+					first := s.Instrs[0]
+					if first == ssa.Instruction(df) || !reachesSkipping(first, selSite, df, func(*ssa.BasicBlock, int) bool { return true }) && first != selSite {
+						covers = true
+					}
 				}
 			}
 		}
@@ -171,6 +192,19 @@ func deferredFunc(p *Program, df *ssa.Defer) *ssa.Function {
 		return f
 	}
 	return nil
+}
+
+// negations: the number of `!` around the condition's root.
+func negations(v ssa.Value) int {
+	n := 0
+	for {
+		u, ok := v.(*ssa.UnOp)
+		if !ok || u.Op != token.NOT {
+			return n
+		}
+		n++
+		v = u.X
+	}
 }
 
 func condRoot(v ssa.Value) ssa.Value {
